@@ -120,7 +120,7 @@ def run(ctx):
     try:
         f = os.path.join(d, "sg.json")
         if ctx.quick:
-            sites = [[ctx.rng.randrange(12) for _ in range(3)] for _ in range(6)] + [[0, 0, 0], [6, 6, 6], [4, 8, 0], [3, 3, 9]]
+            sites = [[ctx.rng.randrange(12) for _ in range(3)] for _ in range(3)] + [[0, 0, 0], [6, 6, 6], [4, 8, 0], [3, 3, 9]]
         else:
             sites = [[a, b, c] for a in range(12) for b in range(12) for c in range(12)]
         tlc.write_json(f, {"rows": rows, "sites": sites})
@@ -128,15 +128,16 @@ def run(ctx):
                         env={"SG_FILE": f}, timeout=ctx.pick(600, 3000))
     finally:
         tlc.cleanup(d)
-    recs = recipes_for(ctx, rows, ctx.pick(2, 12))
+    recs = recipes_for(ctx, rows, ctx.pick(1, 8))
     traces = pool_map(drive, recs)
     ctx.validate("trace/Trace_Crystal.tla", traces, batch=2000, timeout=1500)
     ctx.rule = ("every one of the %d tabulated settings x %d seeded asymmetric units (1-4 sites mixing general and special "
                 "positions on grids N in {12,24,48}, occupancies 1, 1/2, 1/3, 1/4, cells from a symmetrised integer Gram "
                 "matrix, built from parameters or lattice vectors); non-trivial = at least one site on a special position "
-                "(merged images) in a group of order > 1" % (len(rows), ctx.pick(2, 12)))
+                "(merged images) in a group of order > 1; the trigonal/hexagonal/cubic settings additionally get special positions in "
+                "thirds/sixths/twelfths given to file precision (9 or 12 decimals)" % (len(rows), ctx.pick(1, 8)))
     ctx.explanation = ("settings enumerated completely; MC_Crystal enumerates %s sites of the N=12 grid for every setting; "
-                       "asymmetric units and cells are sampled" % ("all 1728" if not ctx.quick else "10"))
+                       "asymmetric units and cells are sampled" % ("all 1728" if not ctx.quick else "7"))
     ctx.exhaustive = False
     ctx.assumptions = ["fractional outputs are projected to the 1/N grid (residual > 1e-6 is rejected as OnGrid)",
                        "operation identity by packed code (C11)"]
